@@ -476,9 +476,15 @@ class Client(ClientLike):
             else:
                 sub_list.append(mt)
 
+        # Subscriptions that are on pause go back on pause when leaving the context
+        paused_list = [mt for mt in sub_list if mt in self.paused_subscribed_types]
+        unsub_list = [mt for mt in sub_list if mt not in paused_list]
+
         self.subscribe(sub_list)
         yield
-        self.unsubscribe(sub_list)
+        self.unsubscribe(unsub_list)
+        if paused_list:
+            self.pause_subscription(paused_list)
 
     @contextmanager
     def paused_subscription_context(self, msg_list: Iterable[int]):
